@@ -6,9 +6,9 @@ import json, sys
 SIM = "deterministic simulation with fault injection: real ergo processes parked at every .ergo system call by an interposer in a build-time overlay of Go's syscall/time/crypto/rand; seeded scheduler, simulated clock and entropy, injected crashes and I/O faults; reference-model oracle"
 
 claimed = {
- "C01": ("exploration", "conc", "seeded search over schedules of concurrent claimers (random, sticky, and every single-preemption point of two claimers per sample); porcupine linearizability against the claim rule (oldest ready at the linearisation point) plus direct checks: no double hand-out, winner is doing and holds the claim, only `lock busy` failures",
+ "C01": ("exploration", "conc", "seeded search over schedules of concurrent claimers (random, sticky, and every single-preemption point of two claimers per sample); porcupine linearizability against the claim rule (oldest ready at the linearisation point) plus direct checks: no double hand-out, winner is doing and holds the claim, only `lock busy` failures; writers that change which task is oldest race the claimers, every command that wrote is pinned to its commit instant; EIO/EMFILE on a read or open of the log before the first write under seeded and serial schedules, 1 in 4 samples with a log of 0.3-2 MB",
          "deterministic simulation: seeded schedule search + single-preemption sweeps, porcupine linearizability vs reference model"),
- "C02": ("exploration", "conc", "seeded search over schedules of batches of mutating commands (conflicting pairs over-weighted, short writes on); porcupine: successful commands have an order consistent with real time that explains every reply and the final observation; failed commands (lock busy included) wrote nothing; log stays whole lines and only grows; a blocking lock wait is reported by the interposer",
+ "C02": ("exploration", "conc", "seeded search over schedules of batches of mutating commands (conflicting pairs over-weighted, short writes on); porcupine: successful commands have an order consistent with real time that explains every reply and the final observation; failed commands (lock busy included) wrote nothing; log stays whole lines and only grows; a blocking lock wait is reported by the interposer; nine conflict families incl. prune vs writers that make a target ineligible; 1 in 5 samples start from a torn tail (1 in 3 of those longer than a block); errno plans and two serial executions per sample",
          "deterministic simulation: seeded schedule search + single-preemption sweeps, porcupine linearizability vs reference model, log-byte accounting"),
  "C03": ("fault_enumeration", "crash", "per sampled (pre-state, command): every system-call boundary is a kill point, log writes are torn at sampled byte offsets (all offsets for short lines in thorough), ENOSPC/EIO/EINTR are returned from the fallible calls; afterwards all reads must succeed, untouched items are unchanged, acknowledged work is intact, and follow-up mutations must succeed, take effect and leave the store readable",
          "deterministic simulation: complete crash-point / torn-write / errno sweep per sampled command, old-or-prefix oracle, post-crash usability runs"),
@@ -26,7 +26,7 @@ claimed = {
          "deterministic simulation: seeded failing commands, observation and log-byte equality"),
  "C11": ("exploration", "seq", "seeded plan documents (DAGs, non-DAGs, duplicates, dangling/self refs, blank/missing fields, Unicode) applied to seeded stores: success creates exactly the described graph, reply equals the following read, bystanders unchanged, log only extended; invalid payloads are rejected with nothing written",
          "deterministic simulation: seeded plan documents vs reference model"),
- "C13": ("exploration", "conc", "readers (list/show, JSON and human) run beside writers of every kind under schedule search and under every single-preemption point of both reader and writer, with short writes on; the reader must exit 0 and its output must be byte-equal to the same command run on one of the whole-line states the log passed through during the reader's lifetime",
+ "C13": ("exploration", "conc", "readers (list/show, JSON and human) run beside writers of every kind under schedule search and under every single-preemption point of both reader and writer, with short writes on; the reader must exit 0 and its output must be byte-equal to the same command run on one of the whole-line states the log passed through during the reader's lifetime (an unterminated fragment is not content; line prefixes of an append in progress count as states); 1 in 3 samples start from a torn tail that the first writer repairs; Unicode and dense multi-byte text with short writes",
          "deterministic simulation: single-preemption sweeps of readers vs writers, output compared with snapshots of states the log passed through"),
  "C14": ("exploration", "seq", "seeded new/set/plan/prune/compact histories with epic arguments drawn from {live epic, task, unknown, pruned, empty}; accept/reject per the model and on every observation each task's epic is empty or a live epic",
          "deterministic simulation: seeded histories vs reference model + epic-reference invariant"),
@@ -45,7 +45,7 @@ claimed.update({
          "deterministic simulation: differential forks of the world with identical clock/entropy streams, observation equality"),
  "C12": ("exploration", "corrupt+seq", "storage-fault injection on the log itself (34 damage kinds, singly and combined, at seeded positions) followed by all 26 commands per damaged log under the simulator: termination by watchdog, exit 0/1, no panic, explained failures naming file:line for non-JSON lines, repeat-read determinism across processes, syscall-level read purity, and event-list prefix preservation for successful mutations; plus the same purity/determinism/prefix oracles on valid histories",
          "deterministic simulation: injected log corruption, syscall-trace read purity, cross-process determinism, history-prefix oracle"),
- "C18": ("exploration", "layout", "seeded sequential histories in which every command draws a fresh start directory and --dir spelling, over store layouts {plans-only, legacy events-only, both with a decoy, lock-less, shadowed by a decoy store in the enclosing directory}, with init and lock removal at seeded points; the sequential refinement oracle is the property (a write through one spelling is visible through all others, where names the project's .ergo, init changes nothing)",
+ "C18": ("exploration", "layout", "seeded sequential histories in which every command draws a fresh start directory and --dir spelling, over store layouts {plans-only, legacy events-only, both with a decoy, lock-less, shadowed by a decoy store in the enclosing directory}, with init and lock removal at seeded points; the sequential refinement oracle is the property (a write through one spelling is visible through all others, where names the project's .ergo, init changes nothing, a read through any spelling is byte-equal to the read from the project root); spellings include ., relative subdirectories, the .ergo directory with and without trailing slash, start directories reached through symbolic links; results are attached so that file URLs are compared too",
          "deterministic simulation: seeded configurations (layout x start dir x --dir spelling), reference-model refinement"),
 })
 
